@@ -28,6 +28,11 @@ def outcome(entry, text):
             from jaqalpaq.parser.parser import parse_jaqal_string_header
 
             c = parse_jaqal_string_header(text)
+        elif entry == "parse-inj":
+            from jaqalpaq.parser import parse_jaqal_string
+            from vlib.pulses.moda import jaqal_gates
+
+            c = parse_jaqal_string(text, inject_pulses=dict(jaqal_gates.ALL_GATES), autoload_pulses=False)
         elif entry == "parse-rel":
             from jaqalpaq.parser import parse_jaqal_string
 
